@@ -508,6 +508,14 @@ def run_random(acc, seed_value, ranges):
         program = [['repeat', ['count', ['num', '300']],
                     [['print', ['call', 'random', [num(low), num(high)]]]]]]
         text = printer.to_text(program)
+        if isinstance(low, float) or isinstance(high, float):
+            # arguments that are not whole-number literals: a quotient, a
+            # register (registers hold floats), a fraction
+            text = ('hue {1} repeat 300 print [random {0} hue]'.format(
+                low, high) if high >= 0 else
+                'repeat 300 print [random {{{0} * 1}} {{{1} / 1}}]'.format(
+                    low, high))
+            low, high = math.ceil(low), math.floor(high)
         del world.trace[:]
         result = world.run(text)
         outs = [e[1] for e in result.trace if e[0] == 'out']
@@ -539,6 +547,8 @@ def plan(tier, seed_value):
                           extra={'kind': 'expr'})
     specs.append({'kind': 'builtins'})
     ranges = [(a, a + d) for a in (-3, 0, 1, 10) for d in range(0, 7)]
+    ranges += [(1, 3.0), (0.5, 3.5), (-2.0, 1.0), (2, 2.75), (-4.5, -2.0),
+               (0.0, 6.0), (1.25, 2.5), (-3, -1.5)]
     for k in range(4):
         specs.append({'kind': 'random', 'seed': seed_value * 1000 + k,
                       'ranges': ranges[k::4]})
